@@ -7,7 +7,7 @@ from .state import State, dtype, key_alloc, key_card
 I = z3.IntSort()
 
 PURE_BUILTINS = {'repr', 'len', 'range', 'isinstance', 'int', 'str', 'bool', 'min', 'max', 'abs', 'all', 'any', 'divmod', 'tuple',
-                 'old', 'implies', 'fresh', 'seq', 'dom', 'unchanged', 'type', 'iff', 'card', 'content', 'ite', 'is_none', 'val', 'prefix', 'cast', 'upd', 'elements', 'elements_if', 'dom', 'mapattr', 'content'}
+                 'old', 'implies', 'fresh', 'seq', 'dom', 'unchanged', 'type', 'iff', 'card', 'content', 'ite', 'is_none', 'val', 'prefix', 'cast', 'upd', 'elements', 'elements_if', 'dom', 'mapattr', 'content', 'truthy'}
 STR_METHODS = {'isupper': BOOL, 'islower': BOOL, 'upper': STR, 'lower': STR, 'startswith': BOOL, 'endswith': BOOL,
                'count': INT, 'isidentifier': BOOL, 'isdigit': BOOL, 'strip': STR, 'lstrip': STR, 'rstrip': STR,
                'encode': STR, 'decode': STR, 'find': INT, 'isalnum': BOOL, 'isalpha': BOOL, 'replace': STR, 'join': STR}
@@ -505,6 +505,11 @@ class CallMixin:
         st.assume(z3.ForAll([i], z3.Implies(z3.And(0 <= i, i < xs.n), arr[i] == v.z), patterns=[arr[i], z3.Select(xs.arr, i)]))
         yield SeqV(v.ty, arr, xs.n), st
 
+    def bi_truthy(self, e, st):
+        """truthy(x): bool(x) of the Python value (spec only)"""
+        v = self.ev1(e.args[0], st)
+        yield SV(BOOL, self.truthy(v, st)), st
+
     def bi_is_none(self, e, st):
         v = self.ev1(e.args[0], st)
         yield SV(BOOL, self.equal(v, SV(NONE, NONEV), st)), st
@@ -531,6 +536,12 @@ class CallMixin:
         m = getattr(self, 'm_%s_%s' % (k, attr), None)
         if m is not None:
             yield from m(recv, e, st)
+            return
+        bc = self.reg.contracts.get('%s.%s' % (k, attr))
+        if bc is not None and k != 'obj':
+            # builtin container method given by an (assumed) contract in the registry
+            for (vs, kw), s in self.ev_args(e, st):
+                yield from self.apply_contract(bc, [recv] + vs, kw, s, e)
             return
         if k == 'obj':
             c = self.reg.find_method(recv.ty.args[0], attr)
@@ -804,12 +815,54 @@ class CallMixin:
             _unsup('non-empty dict literal', e)
         t = getattr(e, '_dict_hint', None) or self.c.types.get('@dict%d' % e.lineno)
         if t is None:
-            _unsup('empty dict literal without declared type (@dict%d)' % e.lineno, e)
+            t = TDict(ANY, ANY)        # an empty literal of unknown use: keys and values are dynamically typed
         r = st.new_ref('dict', -2)
         kt, vt = t.args
         st.dset(r, sort_of(kt), sort_of(vt), dom=z3.K(sort_of(kt), z3.BoolVal(False)))
         st.setH(key_card(), z3.Store(st.H(key_card()), r, z3.IntVal(0)))
         yield SV(t, r), st
+
+    def ev_DictComp(self, e, st):
+        """{kexpr: vexpr for k, v in d.items()} with pure expressions: the image dict.  Its size is at most that of the source and equal
+        to it when the key expression is injective on the source (assumed builtin semantics of comprehensions)."""
+        if len(e.generators) != 1 or e.generators[0].ifs:
+            _unsup('dict comprehension with filter / nesting', e)
+        gen = e.generators[0]
+        vars_, rng, env, _ = self.bind_comprehension(gen, st)
+        s2 = st.copy()
+        s2.env.update(env)
+        was = self.specmode
+        self.specmode += 1
+        try:
+            kx, vx = self.ev1(e.key, s2), self.ev1(e.value, s2)
+        finally:
+            self.specmode = was
+        ks, vs = sort_of(kx.ty), sort_of(vx.ty)
+        r = st.new_ref('dictcomp', -2)
+        dom = fresh('dom', z3.ArraySort(ks, z3.BoolSort()))
+        val = fresh('val', z3.ArraySort(ks, vs))
+        y = z3.Const('y!dc', ks)
+        st.assume(z3.ForAll([y], z3.Select(dom, y) == z3.Exists(vars_, z3.And(rng, kx.z == y))),
+                  z3.ForAll(vars_, z3.Implies(rng, z3.Exists([z3.Const('w!dc', vars_[0].sort())], z3.BoolVal(True)))),
+                  # a key keeps the value of (one of) its source items; unique when the key expression is injective
+                  z3.ForAll([y], z3.Implies(z3.Select(dom, y), z3.Exists(vars_, z3.And(rng, kx.z == y, z3.Select(val, y) == vx.z)))))
+        st.dset(r, ks, vs, dom, val)
+        c = fresh('card', I)
+        src_card = None
+        it = gen.iter
+        if isinstance(it, ast.Call) and isinstance(it.func, ast.Attribute) and it.func.attr in ('items', 'keys', 'values'):
+            d = self.ev1(it.func.value, st)
+            if not isinstance(d, SeqV) and d.ty.kind == 'dict':
+                src_card = self.card(d, st)
+        st.assume(c >= 0)
+        if src_card is not None:
+            v2 = [z3.Const(str(v) + '!2', v.sort()) for v in vars_]
+            kx2 = z3.substitute(kx.z, *zip(vars_, v2))
+            rng2 = z3.substitute(rng, *zip(vars_, v2))
+            inj = z3.ForAll(vars_ + v2, z3.Implies(z3.And(rng, rng2, kx.z == kx2), z3.And(*[a == b for a, b in zip(vars_, v2)])))
+            st.assume(c <= src_card, z3.Implies(inj, c == src_card))
+        st.setH(key_card(), z3.Store(st.H(key_card()), r, c))
+        yield SV(TDict(kx.ty, vx.ty), r), st
 
     def ev_SetComp(self, e, st):
         # {elt for x in src if cond}: membership characterised, cardinality unknown (>= 0)
